@@ -11,6 +11,7 @@ import (
 	"github.com/ldclabs/cose/cose"
 	"github.com/ldclabs/cose/iana"
 	"github.com/ldclabs/cose/key"
+	"strconv"
 )
 
 func init() {
@@ -293,10 +294,11 @@ type msgArgs struct {
 	kind, mode string
 	ext        []byte
 	recips     string
-	fields     [][]string // payload | prot | unprot | key… (produce)   or   keys… (consume)
-	data       []byte     // consume / reencode
-	isRandom   bool       // set by produce when the result depends on randomness
-	warm       bool       // msg.produce2: the message object has been through one produce with nil headers before
+	fields     [][]string    // payload | prot | unprot | key… (produce)   or   keys… (consume)
+	data       []byte        // consume / reencode
+	isRandom   bool          // set by produce when the result depends on randomness
+	viewNow    func() string // consume: payload and headers of the verified object, as they read now
+	warm       bool          // msg.produce2: the message object has been through one produce with nil headers before
 }
 
 func keysOf(fields [][]string) []key.Key {
@@ -322,6 +324,10 @@ func produceT[T any](c payloadCodec[T], a *msgArgs) string {
 	// the read accessors of the produced message object (Bytesify, Signature / Tag, Signatures, Recipients) must agree
 	// with what was emitted; set by each branch, evaluated after a successful produce
 	var accessors func() bool
+	// a later encode on the same message object (other external data, hence other octets) must leave the bytes already
+	// handed out alone; set by each branch, run last
+	var again func()
+	ext2 := append(append([]byte{}, a.ext...), "/again"...)
 	authAgrees := func(auth []byte) bool {
 		_, spans := topMembers(out)
 		return len(spans) >= 4 && bytes.Equal(out[spans[3][0]:spans[3][1]], bstrItem(auth))
@@ -342,6 +348,7 @@ func produceT[T any](c payloadCodec[T], a *msgArgs) string {
 		}
 		out, err = m.SignAndEncode(rs, a.ext)
 		accessors = func() bool { return bytes.Equal(m.Bytesify(), out) && authAgrees(m.Signature()) }
+		again = func() { m.SignAndEncode(s, ext2) }
 		a.isRandom = isEcdsaKey(ks[0])
 		extra = " tobe=" + joinHex(rs.seen)
 		if err == nil {
@@ -376,6 +383,7 @@ func produceT[T any](c payloadCodec[T], a *msgArgs) string {
 		}
 		out, err = m.SignAndEncode(ss, a.ext)
 		accessors = func() bool { return bytes.Equal(m.Bytesify(), out) && len(m.Signatures()) == len(ks) }
+		again = func() { m.SignAndEncode(ss, ext2) }
 		var all [][]byte
 		for _, r := range recs {
 			all = append(all, r.seen...)
@@ -397,6 +405,7 @@ func produceT[T any](c payloadCodec[T], a *msgArgs) string {
 			}
 			out, err = m.ComputeAndEncode(rm, a.ext)
 			accessors = func() bool { return bytes.Equal(m.Bytesify(), out) && authAgrees(m.Tag()) }
+			again = func() { m.ComputeAndEncode(mc, ext2) }
 			if err == nil {
 				extra = " prot=" + hdrDump(m.Protected) + " unprot=" + hdrDump(m.Unprotected)
 			}
@@ -417,6 +426,7 @@ func produceT[T any](c payloadCodec[T], a *msgArgs) string {
 			accessors = func() bool {
 				return bytes.Equal(m.Bytesify(), out) && authAgrees(m.Tag()) && len(m.Recipients()) == len(mkRecipients(a.recips))
 			}
+			again = func() { m.ComputeAndEncode(mc, ext2) }
 		}
 		extra = " tobe=" + joinHex(rm.seen) + extra
 	case "encrypt0", "encrypt":
@@ -445,6 +455,7 @@ func produceT[T any](c payloadCodec[T], a *msgArgs) string {
 			out, err = m.EncryptAndEncode(re, a.ext)
 			accessors = func() bool { return bytes.Equal(m.Bytesify(), out) }
 			up = m.Unprotected
+			again = func() { m.EncryptAndEncode(en, ext2) }
 		} else {
 			m := &cose.EncryptMessage[T]{Protected: prot, Unprotected: unprot, Payload: payload}
 			for _, rc := range mkRecipients(a.recips) {
@@ -463,6 +474,7 @@ func produceT[T any](c payloadCodec[T], a *msgArgs) string {
 				return bytes.Equal(m.Bytesify(), out) && len(m.Recipients()) == len(mkRecipients(a.recips))
 			}
 			up = m.Unprotected
+			again = func() { m.EncryptAndEncode(en, ext2) }
 		}
 		a.isRandom = !given
 		extra = " aad=" + joinHex(re.aads)
@@ -490,6 +502,16 @@ func produceT[T any](c payloadCodec[T], a *msgArgs) string {
 	if accessors != nil && !accessors() {
 		return "ACCESSOR-DISAGREES " + hx(out)
 	}
+	if again != nil {
+		keep := append([]byte{}, out...)
+		func() {
+			defer func() { recover() }()
+			again()
+		}()
+		if !bytes.Equal(out, keep) {
+			return "LATER-ENCODE-REWROTE-THE-BYTES-HANDED-OUT-EARLIER " + hx(keep)
+		}
+	}
 	if a.isRandom {
 		a.data = out
 		return "ok msg=nondet" + extra
@@ -498,7 +520,27 @@ func produceT[T any](c payloadCodec[T], a *msgArgs) string {
 	return "ok msg=" + hx(out) + extra
 }
 
+// consumeT: consumeInner on a private copy of the input; afterwards the copy is overwritten — what a caller does with its
+// receive buffer — and the verified object must still show the payload and headers it showed before
 func consumeT[T any](c payloadCodec[T], a *msgArgs) string {
+	orig := a.data
+	a.data = append([]byte{}, orig...)
+	defer func() { a.data = orig }()
+	a.viewNow = nil
+	res := consumeInner(c, a)
+	if a.viewNow != nil && strings.HasPrefix(res, "ok ") {
+		before := a.viewNow()
+		for i := range a.data {
+			a.data[i] ^= 0xa5
+		}
+		if a.viewNow() != before {
+			return "VERIFIED-OBJECT-FOLLOWS-ITS-INPUT-BUFFER"
+		}
+	}
+	return res
+}
+
+func consumeInner[T any](c payloadCodec[T], a *msgArgs) string {
 	ks := keysOf(a.fields)
 	switch a.kind {
 	case "sign1":
@@ -511,6 +553,7 @@ func consumeT[T any](c payloadCodec[T], a *msgArgs) string {
 		if err != nil {
 			return errClass(err)
 		}
+		a.viewNow = func() string { return c.dump(m.Payload) + hdrDump(m.Protected) + hdrDump(m.Unprotected) }
 		return fmt.Sprintf("ok payload=%s prot=%s unprot=%s tobe=%s", c.dump(m.Payload), hdrDump(m.Protected), hdrDump(m.Unprotected), joinHex(log))
 	case "sign":
 		var vs key.Verifiers
@@ -526,6 +569,27 @@ func consumeT[T any](c payloadCodec[T], a *msgArgs) string {
 		if err != nil {
 			return errClass(err)
 		}
+		// what is verified is the received octets, not the decoded views: a caller that annotates the views of a decoded
+		// message (body and signer buckets) before Verify gets the same verdict over the same Sig_structures
+		if m2 := (&cose.SignMessage[T]{}); m2.UnmarshalCBOR(append([]byte{}, a.data...)) == nil {
+			var log2 [][]byte
+			var vs2 key.Verifiers
+			for _, v := range vs {
+				vs2 = append(vs2, &recVerifier{Verifier: v.(*recVerifier).Verifier, log: &log2})
+			}
+			if m2.Protected != nil {
+				m2.Protected["x-seen-by"] = "gateway-7"
+			}
+			for _, sg := range m2.Signatures() {
+				if len(sg.Protected) > 0 {
+					sg.Protected["x-seen-by"] = "gateway-7"
+				}
+			}
+			if err2 := m2.Verify(vs2, a.ext); err2 != nil || joinHex(log2) != joinHex(log) {
+				return "ANNOTATED-VIEWS-CHANGED-WHAT-IS-VERIFIED " + joinHex(log2)
+			}
+		}
+		a.viewNow = func() string { return c.dump(m.Payload) + hdrDump(m.Protected) + hdrDump(m.Unprotected) }
 		return fmt.Sprintf("ok payload=%s prot=%s unprot=%s tobe=%s", c.dump(m.Payload), hdrDump(m.Protected), hdrDump(m.Unprotected), joinHex(log))
 	case "mac0", "mac":
 		mc, e := ks[0].MACer()
@@ -538,12 +602,14 @@ func consumeT[T any](c payloadCodec[T], a *msgArgs) string {
 			if err != nil {
 				return errClass(err)
 			}
+			a.viewNow = func() string { return c.dump(m.Payload) + hdrDump(m.Protected) + hdrDump(m.Unprotected) }
 			return fmt.Sprintf("ok payload=%s prot=%s unprot=%s tobe=%s", c.dump(m.Payload), hdrDump(m.Protected), hdrDump(m.Unprotected), joinHex(rm.seen))
 		}
 		m, err := cose.VerifyMacMessage[T](rm, a.data, a.ext)
 		if err != nil {
 			return errClass(err)
 		}
+		a.viewNow = func() string { return c.dump(m.Payload) + hdrDump(m.Protected) + hdrDump(m.Unprotected) }
 		return fmt.Sprintf("ok payload=%s prot=%s unprot=%s tobe=%s recips=%s", c.dump(m.Payload), hdrDump(m.Protected), hdrDump(m.Unprotected), joinHex(rm.seen), recipsDump(m.Recipients()))
 	case "encrypt0":
 		en, e := ks[0].Encryptor()
@@ -562,6 +628,9 @@ func consumeT[T any](c payloadCodec[T], a *msgArgs) string {
 		}
 		if err := m.Decrypt(re, a.ext); err != nil {
 			var zero T
+			if len(re.nonces) > 1 { // a message has one nonce: a refused message is not tried again under another
+				return "err SEVERAL-NONCES-TRIED:" + joinHex(re.nonces)
+			}
 			if c.dump(m.Payload) != c.dump(zero) {
 				return "err PAYLOAD-LEAKED:" + c.dump(m.Payload)
 			}
@@ -573,6 +642,7 @@ func consumeT[T any](c payloadCodec[T], a *msgArgs) string {
 		if herr != nil || c.dump(hm.Payload) != c.dump(m.Payload) || string(hm.Bytesify()) != string(m.Bytesify()) {
 			return "HELPER-DISAGREES"
 		}
+		a.viewNow = func() string { return c.dump(m.Payload) + hdrDump(m.Protected) + hdrDump(m.Unprotected) }
 		return fmt.Sprintf("ok payload=%s prot=%s unprot=%s aad=%s nonce=%s", c.dump(m.Payload), hdrDump(m.Protected), hdrDump(m.Unprotected), joinHex(re.aads), joinHex(re.nonces))
 	case "encrypt":
 		en, e := ks[0].Encryptor()
@@ -590,6 +660,9 @@ func consumeT[T any](c payloadCodec[T], a *msgArgs) string {
 		}
 		if err := m.Decrypt(re, a.ext); err != nil {
 			var zero T
+			if len(re.nonces) > 1 { // a message has one nonce: a refused message is not tried again under another
+				return "err SEVERAL-NONCES-TRIED:" + joinHex(re.nonces)
+			}
 			if c.dump(m.Payload) != c.dump(zero) {
 				return "err PAYLOAD-LEAKED:" + c.dump(m.Payload)
 			}
@@ -601,6 +674,7 @@ func consumeT[T any](c payloadCodec[T], a *msgArgs) string {
 		if herr != nil || c.dump(hm.Payload) != c.dump(m.Payload) || string(hm.Bytesify()) != string(m.Bytesify()) {
 			return "HELPER-DISAGREES"
 		}
+		a.viewNow = func() string { return c.dump(m.Payload) + hdrDump(m.Protected) + hdrDump(m.Unprotected) }
 		return fmt.Sprintf("ok payload=%s prot=%s unprot=%s aad=%s nonce=%s recips=%s", c.dump(m.Payload), hdrDump(m.Protected), hdrDump(m.Unprotected), joinHex(re.aads), joinHex(re.nonces), recipsDump(m.Recipients()))
 	}
 	return "bad-op"
@@ -736,6 +810,71 @@ func execMsg(op string, a []string) string {
 		h := f[0]
 		args := &msgArgs{kind: h[0], mode: h[1], ext: unhxOpt(h[2]), recips: h[3], fields: f[1:], warm: true}
 		return dispatchMode(args, true)
+	case "msg.huge":
+		// msg.huge <kind> <n> <pattern> | <key>: a payload of n octets (several hundred KiB) goes through the one-call
+		// producing helper and the one-call consuming helper.  Specification (C01 / C04): what the library produced the
+		// library accepts, whatever the size, and the payload comes back octet for octet.
+		f := splitAll(a)
+		kind := f[0][0]
+		n, _ := strconv.Atoi(f[0][1])
+		which, _ := strconv.Atoi(f[0][2])
+		if n <= 0 || n > 1<<21 {
+			return "bad-op"
+		}
+		payload := patterned(n, which)
+		k := keyFromToks(f[1])
+		ext := []byte("huge")
+		var got []byte
+		var out []byte
+		var err error
+		switch kind {
+		case "sign1":
+			sg, e1 := k.Signer()
+			v, e2 := k.Verifier()
+			if e1 != nil || e2 != nil {
+				return "err key"
+			}
+			if out, err = (&cose.Sign1Message[[]byte]{Payload: payload}).SignAndEncode(sg, ext); err != nil {
+				return "HUGE-MESSAGE-NOT-PRODUCED " + err.Error()
+			}
+			m, e := cose.VerifySign1Message[[]byte](v, out, ext)
+			if e != nil {
+				return "HUGE-MESSAGE-REFUSED " + e.Error()
+			}
+			got = m.Payload
+		case "mac0":
+			mc, e1 := k.MACer()
+			if e1 != nil {
+				return "err key"
+			}
+			if out, err = (&cose.Mac0Message[[]byte]{Payload: payload}).ComputeAndEncode(mc, ext); err != nil {
+				return "HUGE-MESSAGE-NOT-PRODUCED " + err.Error()
+			}
+			m, e := cose.VerifyMac0Message[[]byte](mc, out, ext)
+			if e != nil {
+				return "HUGE-MESSAGE-REFUSED " + e.Error()
+			}
+			got = m.Payload
+		case "encrypt0":
+			en, e1 := k.Encryptor()
+			if e1 != nil {
+				return "err key"
+			}
+			if out, err = (&cose.Encrypt0Message[[]byte]{Payload: payload}).EncryptAndEncode(en, ext); err != nil {
+				return "HUGE-MESSAGE-NOT-PRODUCED " + err.Error()
+			}
+			m, e := cose.DecryptEncrypt0Message[[]byte](en, out, ext)
+			if e != nil {
+				return "HUGE-MESSAGE-REFUSED " + e.Error()
+			}
+			got = m.Payload
+		default:
+			return "bad-op"
+		}
+		if !bytes.Equal(got, payload) {
+			return "HUGE-PAYLOAD-ALTERED"
+		}
+		return "ok"
 	case "msg.failsign":
 		// msg.failsign <kind> <ext> | <payload1> | <payload2> | <key>: a message object that holds a good message gets another
 		// payload and is signed / MACed again by a primitive that fails.  Specification: the failed call does not leave a
